@@ -798,6 +798,7 @@ type c21Result struct {
 	Dials    int64
 	Exists   int64 // cases in which a version exists
 	Outcomes map[string]int64
+	Other    map[string]int64 // texts of the errors classed err-other
 	ByKey    map[string]*c21Found
 	Samples  []c21Found
 	Infra    string
@@ -860,7 +861,7 @@ func c21ChildMain(t *testing.T, spec string) int {
 		return 2
 	}
 	defer prog.Close()
-	res := &c21Result{Outcomes: map[string]int64{}, ByKey: map[string]*c21Found{}}
+	res := &c21Result{Outcomes: map[string]int64{}, ByKey: map[string]*c21Found{}, Other: map[string]int64{}}
 	jobs := c21Jobs(ev.Thorough())
 	var pb [16]byte
 	for ji := w; ji < len(jobs) && res.Infra == ""; ji += n {
@@ -883,6 +884,9 @@ func c21ChildMain(t *testing.T, spec string) int {
 				res.Exists++
 			}
 			res.Outcomes[fmt.Sprintf("%d|%s|v%d", c.Key, o.Class, o.Ver)]++
+			if o.Class == "err-other" && (len(res.Other) < 20 || res.Other[o.Err] > 0) {
+				res.Other[o.Err]++
+			}
 			verdicts := c21Judge(c, o)
 			for _, v := range verdicts {
 				c.Name = kmsg.NameForKey(c.Key)
@@ -1018,7 +1022,7 @@ func TestVerifC21(t *testing.T) {
 		start(c)
 		children = append(children, c)
 	}
-	total := &c21Result{Outcomes: map[string]int64{}, ByKey: map[string]*c21Found{}}
+	total := &c21Result{Outcomes: map[string]int64{}, ByKey: map[string]*c21Found{}, Other: map[string]int64{}}
 	var infra string
 	type crash struct {
 		c    c21Case
@@ -1076,6 +1080,9 @@ func TestVerifC21(t *testing.T) {
 		for k, n := range res.Outcomes {
 			total.Outcomes[k] += n
 		}
+		for k, n := range res.Other {
+			total.Other[k] += n
+		}
 		for k, f := range res.ByKey {
 			old := total.ByKey[k]
 			if old == nil {
@@ -1114,6 +1121,7 @@ func TestVerifC21(t *testing.T) {
 	r.Set("cases_where_a_version_exists", total.Exists)
 	r.Set("cases_where_no_version_exists", total.Cases-total.Exists)
 	r.Set("connections_opened", total.Dials)
+	r.Set("error_texts_classed_err-other", total.Other)
 	r.Set("jobs", len(jobs))
 	r.Set("keys_full_grid", fullKeys)
 	r.Set("keys_boundary_grid", boundaryKeys)
@@ -1133,9 +1141,11 @@ func TestVerifC21(t *testing.T) {
 		f := total.ByKey[k]
 		r.Violation(k, fmt.Sprintf("%v\nexpected: %s\n%s\n(%d cases with this key)", f.Case, f.Want, f.What, f.Count), f)
 	}
-	for _, cr := range crashes {
-		r.Violation("panic", fmt.Sprintf("%v\nthe worker process died while this case was running:\n%s", cr.c, cr.tail),
-			map[string]any{"case": cr.c, "stderr": cr.tail})
+	if len(crashes) > 0 {
+		sort.Slice(crashes, func(i, j int) bool { return c21Less(crashes[i].c, crashes[j].c) })
+		cr := crashes[0]
+		r.Violation("panic", fmt.Sprintf("%v\nthe worker process died while this case was running:\n%s\n(%d cases killed their worker)", cr.c, cr.tail, len(crashes)),
+			map[string]any{"case": cr.c, "stderr": cr.tail, "crashing_cases": len(crashes)})
 	}
 	os.Exit(r.Write())
 }
